@@ -388,6 +388,7 @@ def generated(ctx, its, full=True):
     n_if = n_set = n_get = 0
     kinds_seen = set()
     fixture_seen = set()
+    fallible_seen = [0]
     for it in its:
         if not all(k in it.m for k in ("get", "get_all", "set", "set_mut", "introspect_to_writer", "name")):
             ctx.ob("P-ACCESS", it.key + ":has-property-methods", False, "Interface impl lacks get/get_all/set/set_mut bodies in the facts", it.where)
@@ -419,6 +420,27 @@ def generated(ctx, its, full=True):
                "get matches %s; advertised readable %s" % (sorted(gt), sorted(readable)), G.where)
         ctx.ob("P-ACCESS", it.key + ":set-arms=writable", set(st) == writable,
                "set matches %s; advertised writable %s" % (sorted(st), sorted(writable)), S.where)
+        # ---- get_all and fallible getters (added after seeded change C28b): GetAll returns the properties that can be
+        # read; a getter that currently fails is skipped, it must not fail the whole call -- so the result of a getter
+        # is matched (`if let Ok(..)`), never handed to `?` (the `?` on the value *conversion* is a different value)
+        bad_getters = {}
+        for c in mir.calls(GA):
+            if c.is_("branch") and "ops::try_trait::Try" in (c.callee + " " + c.declared) and c.args:
+                src = L.value_source(f, GA, c.args[0])
+                if src is not None and it.is_handler_call(src):
+                    bad_getters[src.callee] = c.where
+        n_fallible = 0
+        for c in mir.calls(GA):
+            if it.is_handler_call(c):
+                d = f.fnsigs.get(c.callee)
+                if (d and "core::result::Result<" in d["sig"].split("->")[-1]) or c.callee in bad_getters:
+                    n_fallible += 1
+                    ok = c.callee not in bad_getters
+                    ctx.ob("P-GET", "%s:get_all:failing-getter-is-skipped:%s" % (it.key, short(c.callee)), ok,
+                           "the Result of the fallible getter %s is matched, not propagated" % short(c.callee) if ok else
+                           "get_all applies `?` to the result of the getter %s: one failing getter makes GetAll fail and hides "
+                           "every other readable property" % short(c.callee), bad_getters.get(c.callee, c.where))
+        fallible_seen[0] += n_fallible
         # ---- get_all keys
         fam = {b.id: b for b in L.kids(f, S)}
         ga_keys = {}
@@ -534,6 +556,7 @@ def generated(ctx, its, full=True):
                 ctx.ob("P-TABLE", "%s:fixture-declaration:%s" % (it.key, nm), ok,
                        "declared %s, generated code implements %s" % (w, g), it.where)
     if any(it.cfg == "K6" for it in its):
+        ctx.floor("P-GET", "fallible getters seen in generated get_all bodies", fallible_seen[0], 1)
         for k in FIXTURE_PROPS:
             ctx.ob("P-TABLE", "fixture-interface-analysed:" + k, k in fixture_seen,
                    "fixture interface %s found among the generated impls of K6" % k, "-")
